@@ -1,6 +1,6 @@
 SPECIFICATION Spec
 CONSTANTS
-  Configs <- CfgFault
+  Configs <- CfgFaultBig
   Window = 2
   MaxFaults = 0
   FaultKinds <- AllKinds
